@@ -314,8 +314,12 @@ add("C05", "B", S, "                new_block = True\n                start_inde
     "scanner jumps over the discarded window")
 
 # ----------------------------------------------------------------------------- rules added in round 3 (DESIGN 10.15)
-add("C07", "B", TM, "    while queue:\n        ind1, ind2, bond = queue.pop()", "    _SEEN_MOVES[atom_index] = n_atoms\n    while queue:\n        ind1, ind2, bond = queue.pop()",
-    "the move records something in a module-level dict", more=[(TM, "def move_mol_atom(", "_SEEN_MOVES: dict = {}\n\n\ndef move_mol_atom(")])
+add("C07", "B", TM, "    n_atoms = len(atoms_pos)\n", "    n_atoms = len(atoms_pos)\n    if id(bonds_info) not in _SIZES:\n        _SIZES[id(bonds_info)] = len(bonds_info)\n    n_atoms = max(n_atoms, _SIZES[id(bonds_info)])\n",
+    "a table kept between calls, keyed by the identity of the bond table", more=[(TM, "def move_mol_atom(", "_SIZES: dict = {}\n\n\ndef move_mol_atom(")])
+add("C07", "P", TM, "    n_atoms = len(atoms_pos)\n", "    n_atoms = len(atoms_pos)\n    if n_atoms not in _RANGES:\n        _RANGES[n_atoms] = tuple(range(n_atoms))\n",
+    "a memo keyed by the value everything in it is computed from", more=[(TM, "def move_mol_atom(", "_RANGES: dict = {}\n\n\ndef move_mol_atom(")])
+add("C07", "P", TM, "    n_atoms = len(atoms_pos)\n", "    n_atoms = len(atoms_pos)\n    _CALLS.append(n_atoms)\n",
+    "a write-only log list at module level", more=[(TM, "def move_mol_atom(", "_CALLS: list = []\n\n\ndef move_mol_atom(")])
 add("C11", "B", S, "        for index, gro_start, ammount in self._molecules_ordered:\n            len_mol = len(self.different_molecules[index].resnames)\n            for i in range(ammount):\n                yield (index, gro_start+i*len_mol, gro_start+(i+1)*len_mol)",
     "        if not getattr(self, '_all_cache', None):\n            self._all_cache = []\n            for index, gro_start, ammount in self._molecules_ordered:\n                len_mol = len(self.different_molecules[index].resnames)\n                for i in range(ammount):\n                    self._all_cache.append((index, gro_start+i*len_mol, gro_start+(i+1)*len_mol))\n        for item in self._all_cache:\n            yield item",
     "instance list remembered on the System and never reset")
